@@ -118,6 +118,13 @@ func c16Formats() []c16Format {
 		}})
 	}
 	fs = append(fs, c16Format{"auto:utf8-double", func(t tabular.Table, g int) (string, error) { return auto.Render(t, "utf8-double") }})
+	// a decoration of the goroutine's own, completed with Populate() inside the goroutine: completing a value is
+	// part of "building and rendering in any decorations"
+	fs = append(fs, c16Format{"text:own decoration completed by Populate", func(t tabular.Table, g int) (string, error) {
+		d := decoration.Decoration{Horizontal: string(rune('a' + g%26)), Vertical: string(rune('A' + g%26)), CrossPiece: string(rune('0' + g%10))}
+		d.Populate()
+		return texttable.Wrap(t).SetDecoration(d).Render()
+	}})
 	// the caller's io.Writer is the library's one suspension point: a writer that yields the processor on
 	// every Write parks a render between any two of its writes, while other goroutines render
 	yielding := func(name string, to func(t tabular.Table, w io.Writer) error) {
@@ -428,7 +435,7 @@ func init() {
 		Level:  "exploration",
 		Race:   true,
 		Shards: raceShards,
-		Rule: "built with -race; shards run at GOMAXPROCS = all cores, 2, 4, 1. One case = one barrier-released batch of G goroutines (G cycles through 2, 8, 16, 32, 64), each owning a random table spec (as in C10, with alignments and occasional size-declaring items) which it builds and renders in all 17 formats (csv, json, markdown, html twice through one wrapper with caption/generator/context, auto markdown, text under the six built-in decorations, auto utf8-double, and json/csv/markdown/html/text through RenderTo into a writer that yields the processor on every Write - the caller's writer is the library's one suspension point) in a goroutine-specific order - half of the goroutines on one table of their own for all renders (so that state accumulates on it), the others on a freshly built table per render -, with property traffic on its own table, column 0 and first cell before every render (three keys in rotating order, read back after the render and compared like the output); two thirds of the tables also take a row of by-value copies of up to 7 cells the parent prepared once per batch (values of common provenance: each table owns its copies), and the same cells as items; a sixth of the tables hold an item the JSON encoder refuses, so that renders fail part-way during the batch; while 2 background goroutines read RegisteredDecorationNames/Named/auto.ListStyles in a loop. After the batch the same specs are built and rendered alone to obtain reference bytes (afterwards, so that grow-only process-wide state is first touched concurrently); 1/25 of the cells are 81-400 characters wide; every concurrent output must equal its reference. phase 1: N = 65, 70, 100, 130, 200 or 257 goroutines each render a table of their own (one format for the whole batch, or six formats mixed) into a writer whose first Write blocks until all N renders have got that far, so that N renders are in flight at the same instant; no panic, and every output equals the same table rendered alone. " +
+		Rule: "built with -race; shards run at GOMAXPROCS = all cores, 2, 4, 1. One case = one barrier-released batch of G goroutines (G cycles through 2, 8, 16, 32, 64), each owning a random table spec (as in C10, with alignments and occasional size-declaring items) which it builds and renders in all 18 formats (csv, json, markdown, html twice through one wrapper with caption/generator/context, auto markdown, text under the six built-in decorations, auto utf8-double, text under a decoration of the goroutine's own completed by Populate() inside the goroutine, and json/csv/markdown/html/text through RenderTo into a writer that yields the processor on every Write - the caller's writer is the library's one suspension point) in a goroutine-specific order - half of the goroutines on one table of their own for all renders (so that state accumulates on it), the others on a freshly built table per render -, with property traffic on its own table, column 0 and first cell before every render (three keys in rotating order, read back after the render and compared like the output); two thirds of the tables also take a row of by-value copies of up to 7 cells the parent prepared once per batch (values of common provenance: each table owns its copies), and the same cells as items; a sixth of the tables hold an item the JSON encoder refuses, so that renders fail part-way during the batch; while 2 background goroutines read RegisteredDecorationNames/Named/auto.ListStyles in a loop. After the batch the same specs are built and rendered alone to obtain reference bytes (afterwards, so that grow-only process-wide state is first touched concurrently); 1/25 of the cells are 81-400 characters wide; every concurrent output must equal its reference. phase 1: N = 65, 70, 100, 130, 200 or 257 goroutines each render a table of their own (one format for the whole batch, or six formats mixed) into a writer whose first Write blocks until all N renders have got that far, so that N renders are in flight at the same instant; no panic, and every output equals the same table rendered alone. " +
 			"distinct_nontrivial counts distinct interleaving signatures (global completion order of the renders by goroutine id). The race detector's log is parsed by the parent; every report with a tabular frame is a violation; a fatal runtime error in the child is a violation.",
 		Assumptions: []string{
 			"each goroutine owns its tables and wrappers; sharing one table or wrapper between goroutines is out of scope (documented as unsupported for HTMLTable with a generator context)",
